@@ -131,9 +131,21 @@ def transfer_fn(name):
             "full": full_weight_transfer}[name]
 
 
+def num_as(x, numtype):
+    """the same number in the requested representation (int / float / Fraction) when it is exactly representable there"""
+    from fractions import Fraction as F
+    x = F(x)
+    if numtype == "int" and x.denominator == 1:
+        return int(x)
+    if numtype == "float" and F(float(x)) == x:
+        return float(x)
+    return x
+
+
 def constructor(cfg, profile, transfer_override=None):
     """returns a zero-argument callable building the election described by cfg"""
     el = E()
+    nt = cfg.get("numtype", "fraction")
     r = cfg["rule"]
     tb = cfg.get("tiebreak")
     m = cfg.get("m", 1)
@@ -167,20 +179,20 @@ def constructor(cfg, profile, transfer_override=None):
     if r == "PluralityVeto":
         return lambda: el.PluralityVeto(profile, m=m, tiebreak=tb)
     if r == "Rating":
-        return lambda: el.Rating(profile, m=m, L=canon.pf(cfg.get("L", "1")), tiebreak=tb)
+        return lambda: el.Rating(profile, m=m, L=num_as(canon.pf(cfg.get("L", "1")), nt), tiebreak=tb)
     if r == "Limited":
-        return lambda: el.Limited(profile, m=m, k=canon.pf(cfg.get("k", "1")), tiebreak=tb)
+        return lambda: el.Limited(profile, m=m, k=num_as(canon.pf(cfg.get("k", "1")), nt), tiebreak=tb)
     if r == "Cumulative":
         return lambda: el.Cumulative(profile, m=m, tiebreak=tb)
     if r == "Approval":
         return lambda: el.Approval(profile, m=m, tiebreak=tb)
     if r == "BlocPlurality":
         k = cfg.get("k")
-        return lambda: el.BlocPlurality(profile, m=m, k=None if k is None else int(k), tiebreak=tb)
+        return lambda: el.BlocPlurality(profile, m=m, k=None if k is None else num_as(k, cfg.get("numtype", "int")), tiebreak=tb)
     if r == "GeneralRating":
         k = cfg.get("k")
-        return lambda: el.GeneralRating(profile, m=m, L=canon.pf(cfg.get("L", "1")),
-                                        k=None if k is None else canon.pf(k), tiebreak=tb)
+        return lambda: el.GeneralRating(profile, m=m, L=num_as(canon.pf(cfg.get("L", "1")), nt),
+                                        k=None if k is None else num_as(canon.pf(k), nt), tiebreak=tb)
     raise KeyError(r)
 
 
